@@ -6,11 +6,36 @@ macro_rules! cfg {
         let tier = $run.tier;
         $run.explore(&t::$fam::u::<$n, $z>(), &plans::arith::<$fam::U<$n>>(tier));
         $run.explore(&t::$fam::i::<$n, $z>(), &plans::arith::<$fam::I<$n>>(tier));
+        // thorough: closure pass (non-initial states derived by the model)
+        if !$run.in_replay() {
+            if let Some(p) = plans::closure_plan(&t::$fam::u::<$n, $z>(), tier) {
+                $run.explore(&t::$fam::u::<$n, $z>(), &p);
+            }
+            if let Some(p) = plans::closure_plan(&t::$fam::i::<$n, $z>(), tier) {
+                $run.explore(&t::$fam::i::<$n, $z>(), &p);
+            }
+        }
     }};
 }
 
 fn main() {
     let mut run = Run::from_args("C03", "c03");
     vcore::core_configs!(cfg, run);
+    if run.tier == Tier::Thorough && (run.in_replay() || run.wants("BUintD8<3>")) {
+        // Knuth window sweep: the complete (m = 1, n = 2) state space of the quotient-digit estimate over
+        // u8 digits: dividends u2 u1 u0 with (u2, u1) ranging over all 2^16 values and u0 in {00, 80, ff},
+        // against all 2^16 divisors (one- and two-digit)
+        let mut ops = t::d8::u::<3, i128>();
+        ops.retain(|o| o.name == "checked_div" || o.name == "checked_rem");
+        let mut a: Vec<Vec<u8>> = Vec::with_capacity(3 << 16);
+        for hi in 0..(1u32 << 16) {
+            for u0 in [0x00u8, 0x80, 0xff] {
+                a.push(vec![u0, hi as u8, (hi >> 8) as u8]);
+            }
+        }
+        let b: Vec<Vec<u8>> = (0..(1u32 << 16)).map(|v| vec![v as u8, (v >> 8) as u8, 0]).collect();
+        let plan: Plan<d8::U<3>> = Plan::new("KNUTH WINDOW: (u2,u1) all 2^16 x u0 in {00,80,ff} / all 2^16 divisors", &a, &b, &[]);
+        run.explore(&ops, &plan);
+    }
     std::process::exit(run.finish());
 }
